@@ -138,7 +138,7 @@ begin characters;
 endblock;
 begin trees;
   translate 1 'it''s', 2 B_2, 3 c;
-  tree [tc] t = [&R] (1[&k=1]:1,(2:2,3:3)in[&p=0.9]:4)root;
+  tree [tc] t = [&R] (1[&k=1,hpd={0.00123456789012345,0.00987654321098765}]:1,(2:2,3:3)in[&p=0.9,range={1.5,22.75}]:4)root;
 endblock;
 """),
     # 6: trees only, several trees, single-node tree, blank nodes, unifurcation
@@ -178,6 +178,9 @@ NEWICK_FIXED = [
     "[&R] ((a,b)[&support=0.9]:1e-2,'c d':3,e_f)root:0.0;",
     "A;\n(,(,));\n((A));\n(A,B,C,D);",
     "[&U] [&W 1/3] (('x''y':0.5,z:1.5):2,(w,v)):0; [trailing comment]\n",
+    # BEAST / FigTree style annotations with brace lists, and NHX comments (metadata comments are parsed by default)
+    "((A[&height_95%_HPD={0.00123456789012345,0.00987654321098765},rate=1.0]:1.5,"
+    "B[&height_range={0.1,0.25},posterior=0.99]:2)[&!name=\"clade one\",cols={red,green,blue}]:0.5,C[&&NHX:S=human:E=1.1.1.1:D=N]:3);",
 ]
 
 PHYLIP_FIXED = [
